@@ -1,6 +1,7 @@
 """Column name sanitization and uniquification utilities."""
 
 from __future__ import annotations
+import keyword
 import re
 
 
@@ -67,8 +68,8 @@ def _sanitize_user_name(name) -> str | None:
 	if re.match(r'^.+__\d+$', sanitized):
 		sanitized = sanitized + '_'
 	
-	# Conflicts with reserved name → append _
-	if sanitized in _get_reserved_names():
+	# Conflicts with reserved name or Python keyword (t.if would not parse) → append _
+	if sanitized in _get_reserved_names() or keyword.iskeyword(sanitized):
 		sanitized = sanitized + '_'
 	
 	return sanitized
